@@ -1,11 +1,13 @@
 """
 C01 bounded tier: whenever the remapping completes, the fragments of all output assemblies together partition the
 input contigs base by base, and every output fragment is a sub-interval of one input contig under its name.
-Driven over the PretextView-model case stream of pipeline_gen, an exhaustive tiny scope, tagged maps and seeded
-perturbations of the maps (dropped / duplicated / overlapping / out-of-range pieces, junk bait lists).  Errors are
+Driven over the PretextView-model case stream of pipeline_gen, an exhaustive tiny scope, tagged maps, seeded
+perturbations of the maps (dropped / duplicated / overlapping / out-of-range pieces, junk bait lists) and an
+enumeration of short contigs (around the texel error length) shared by two or three pieces that leave a hole in them.  Errors are
 allowed (the statement is conditional on completion); silent loss, duplication or invention is not.
 """
 
+import math
 import random
 
 from . import pipeline_gen as pg
@@ -92,13 +94,153 @@ def decorate(case, rng):
     return {**case, "map": {"bpt": case["map"]["bpt"], "scaffolds": scs}}
 
 
+# --------------------------------------------------------------------------------------------------
+# short contigs shared by two or three pieces that do not abut inside them
+# --------------------------------------------------------------------------------------------------
+# "Whatever the Pretext file says": pieces whose ends were nudged off the texel grid leave a stretch of a contig that
+# no piece claims (a hole), or claim a stretch twice.  When the contig is about as long as the texel error length
+# E = 1 + floor(bp per texel), every piece's share of it is of the order of the tolerance, which is where a remapping
+# is most tempted to give the contig away.  The statement does not care who gets it, only that exactly one output
+# fragment holds each of its bases, or that the run ends in an error.
+
+HOLE_BPTS = {"quick": (1.0, 2.5, 10.0, 33.3), "thorough": (1.0, 2.5, 4.0, 7.5, 10.0, 33.3, 100.0)}
+
+
+def err_len(bpt):
+    return 1 + math.floor(bpt)
+
+
+def share_marks(E, full):
+    """lengths of a piece's share of the short contig: everything up to E + 2 (small E), else around 1, E/2 and E"""
+    if full:
+        return list(range(1, E + 3))
+    return sorted({1, 2, E // 2, E - 2, E - 1, E, E + 1})
+
+
+def hole_marks(E, full):
+    """unclaimed bases between two pieces (negative: claimed twice)"""
+    if full:
+        return list(range(-1, 2 * E + 1))
+    return sorted({-1, 0, 1, 2, E // 2, E - 1, E, E + 1, 2 * E})
+
+
+def hole_geometry(position, K, L, gap, strands, naming):
+    """
+    one input scaffold with a short contig of L bp at its start / end / between two long contigs of K bp;
+    -> (scaffold, first base of the short contig in the scaffold, scaffold length)
+    """
+    lens = {"start": [L, K], "end": [K, L], "middle": [K, L, K], "run": [K, L, L, K]}[position]
+    k = len(lens)
+    sc = pg.make_scaffold("scaffold_1", lens, strands[:k], [gap] * (k - 1), naming, tag="1")
+    s0 = 1 if position == "start" else K + (gap[0] if gap else 0) + 1
+    return sc, s0, pg.rows_len(sc["rows"])
+
+
+def hole_pieces(position, s0, L, total, shares, holes):
+    """
+    the pieces over scaffold_1: shares = (a, [m, ...], b) bases of the short contig for the pieces in scaffold order,
+    holes = unclaimed bases between consecutive pieces.  The first piece starts at the scaffold start, the last ends
+    at the scaffold end (position 'end': at the end of the short contig, which is the scaffold end).  None if the
+    shares and holes do not fit the contig.
+    """
+    if sum(shares) + sum(holes) != L:
+        return None
+    pieces = []
+    pos = s0
+    last = len(shares) - 1
+    for i, share in enumerate(shares):
+        start = 1 if i == 0 else pos
+        end = total if i == last else pos + share - 1
+        if end < start or end > total or (pieces and start <= pieces[-1][1]):
+            return None
+        pieces.append(["scaffold_1", start, end])
+        if i < last:
+            pos += share + holes[i]
+            if pos < s0:
+                return None
+    return pieces
+
+
+def hole_cases(tier, rng):
+    """
+    Yields (family, case).  Families
+      hole2-<position>   two pieces share the short contig: a bp to the first, h unclaimed (h < 0: claimed twice), b to
+                         the second; a, b, h from share_marks / hole_marks of every texel size, short contig of
+                         a + h + b bp (so below, at and above E and 2E) at the scaffold start, end, or in the middle
+      hole3-<position>   three pieces: a, h1, m (a piece wholly inside the contig), h2, b
+      hole2-run          two short contigs in a row, the second one untouched by the hole
+    per combination `reps` seeded variants of: long-contig length, gap between contigs, strands, naming, an extra
+    texel-grid cut in the long left contig, arrangement (order / orientation / grouping of the pieces) and paint.
+    """
+    quick = tier == "quick"
+    reps = 1 if quick else 3
+    i = 0
+    for bpt in HOLE_BPTS[tier]:
+        E = err_len(bpt)
+        full = E <= 3 or (not quick and E <= 5)
+        A = share_marks(E, full)
+        H = hole_marks(E, full)
+        combos = [("hole2", (a, b), (h,)) for a in A for b in A for h in H]
+        small = sorted({1, E - 1, E + 1})
+        combos += [
+            ("hole3", (a, m, b), (h1, h2))
+            for a in small
+            for m in small
+            for b in small
+            for h1 in sorted({0, E - 1} if quick else {0, 1, E - 1})
+            for h2 in sorted({0, E - 1} if quick else {0, 1, E - 1})
+        ]
+        for ci, (fam, shares, holes) in enumerate(combos):
+            L = sum(shares) + sum(holes)
+            if L < 1 or min(shares) < 1:
+                continue
+            if not quick:
+                positions = ("middle", "end", "start", "run") if fam == "hole2" else ("middle", "end", "start")
+            elif fam == "hole3":
+                positions = ("middle",)
+            else:
+                # quick: the middle always; scaffold ends for every combination when E <= 3, else alternating
+                positions = ("middle", "end", "start") if full else ("middle", ("end", "start")[ci % 2])
+                if L % 3 == 0:
+                    positions = (*positions, "run")
+            for position in positions:
+                for _ in range(reps):
+                    K = rng.choice((math.ceil(4 * bpt) + 1, 6 * E + 1))
+                    gap = rng.choice((None, None, None, (1, "contig"), (max(1, E // 2), "scaffold"), (E, "scaffold")))
+                    strands = [rng.choice((1, 1, -1)) for _ in range(4)]
+                    naming = rng.choice(("own", "own", "fasta", "offset"))
+                    sc, s0, total = hole_geometry(position, K, L, gap, strands, naming)
+                    pieces = hole_pieces(position, s0, L, total, shares, holes)
+                    if pieces is None:
+                        continue
+                    if position != "start" and rng.random() < 0.25:
+                        # one more piece, cut off the long left contig on the texel grid
+                        s, e = pg.texel_piece(0, 2, bpt)
+                        if e + 1 < pieces[0][2] and e < K:
+                            pieces[0][1] = e + 1
+                            pieces.insert(0, ["scaffold_1", s, e])
+                    k = len(pieces)
+                    arr = rng.choice(pg.ALL_ARRANGEMENTS[k]) if k <= 3 else pg.random_arrangement(k, rng)
+                    if rng.random() < 0.3:
+                        # as PretextView would list them if nothing had been moved: every piece its own scaffold
+                        arr = (tuple(range(k)), (1,) * k, (1,) * k)
+                    painted = [rng.random() < 0.5 for _ in arr[2]]
+                    mp = {"bpt": bpt, "scaffolds": pg.arrange(pieces, arr, painted)}
+                    i += 1
+                    inp = [sc]
+                    yield f"{fam}-{position}", {"input": inp, "map": mp, "prefix": "SUPER_", "via": pg.pick_via(inp, i)}
+
+
 def run(tier, seed, **opts):
     rng = random.Random(seed)
     col = Collector(
         "PretextView-model edit scripts (pipeline_gen.model_cases: single scaffolds of <= 3 contigs over every length "
         "tuple, sub-texel contig runs, 2-3 scaffold inputs; cut/permuted/reoriented/regrouped, floor/ceil, sub-texel "
         "scaffolds absent or present, painted or not), the same with random tags, seeded perturbations (drop, "
-        "duplicate, overlap, shift, out-of-range, junk baits) and an exhaustive tiny scope; oracle: per-base "
+        "duplicate, overlap, shift, out-of-range, junk baits), an exhaustive tiny scope, and short-contig hole "
+        "scenarios (hole_cases: a contig of a + h + b bp at the scaffold start / end / middle, shared by two or three "
+        "pieces with shares a, b around 1, E/2 and E = 1 + floor(bp per texel) and h unclaimed or doubly claimed "
+        "bases between them; every value up to E + 2 resp. 2E for E <= 3); oracle: per-base "
         "partition of the input contigs by all output assemblies; non-trivial = distinct case that completed "
         "without error and has >= 2 pieces or a perturbation"
     )
@@ -136,11 +278,19 @@ def run(tier, seed, **opts):
         if roll > 0.5:
             for pc, kinds in pg.perturbations(case, rng, 2):
                 one(pc, "perturbed")
+    # short contigs shared by pieces that leave a hole (or overlap) inside them
+    for fam, case in hole_cases(tier, rng):
+        if col.full:
+            break
+        one(case, fam)
+        if rng.random() < (0.05 if quick else 0.15):
+            one(decorate(case, rng), "hole+tags")
     return col.result(
         bounds=(
             "input: 1-3 scaffolds x 1-6 contigs, contig lengths from {1,2,7,12,40,150,400,1000}, gaps none/1/10/20/25/200, "
             "both strands, names fasta/own/offset, optional terminal gaps; texel sizes {1,2.5,10,33.3}; <= 3 cuts per "
-            f"scaffold; tiny scopes ({tiny_n} cases: {pg.describe_scopes(scopes)}; both strands, every cut set / permutation / "
+            f"scaffold; hole scenarios at texel sizes {list(HOLE_BPTS[tier])}, long contigs of 4-6 texels, gaps none/1/E/2/E; "
+            f"tiny scopes ({tiny_n} cases: {pg.describe_scopes(scopes)}; both strands, every cut set / permutation / "
             "orientation / grouping, painted and unpainted) are enumerated fully, the rest is seeded sampling; "
             f"runs ending in an error: {stats.get('errors', 0)} (allowed); per family: "
             + ", ".join(f"{k}={v}" for k, v in sorted(stats.items()) if k != "errors")
